@@ -26,7 +26,7 @@ pub enum Diff {
     Discard(String),
     Fail(String),
     /// agreement: the model run and the source text
-    Agree { model: Run, src: String, digest: u64, tree_differs: bool },
+    Agree { model: Run, src: String, digest: u64, tree_differs: bool, reading: Option<&'static str> },
 }
 
 pub fn differential(prog: &Program, o: &DiffOpts) -> Diff {
@@ -45,10 +45,16 @@ pub fn differential(prog: &Program, o: &DiffOpts) -> Diff {
         Err(Stop::Unspecified(w)) => return Diff::Discard(format!("unspecified:{}", w)),
         _ => {}
     }
+    // the second reading of "enclosing scope", when it gives this program another meaning: rrss must then behave like
+    // one of the two readings as a whole (an implementation that follows neither is wrong under both)
+    let mut other: Option<Run> = None;
     if o.both_scopings {
         let l = model::run(prog, o.stdin, Scoping::Lexical, o.lim);
-        if l.out != m.out || l.result.is_ok() != m.result.is_ok() || !l.judged() {
+        if !l.judged() {
             return Diff::Discard("scope_reading".into());
+        }
+        if l.out != m.out || l.result.is_ok() != m.result.is_ok() {
+            other = Some(l);
         }
     }
     let tree = match parse_rrss(&src, Some(crate::run::parse_fuel_for(&src))) {
@@ -68,9 +74,25 @@ pub fn differential(prog: &Program, o: &DiffOpts) -> Diff {
     } else {
         String::new()
     };
-    let lim = RLimits { exec_fuel: Some(10 * m.steps + 100), alloc_cap: Some(4_000_000) };
+    let steps = m.steps.max(other.as_ref().map_or(0, |l| l.steps));
+    let lim = RLimits { exec_fuel: Some(10 * steps + 100), alloc_cap: Some(4_000_000) };
     let (caught, out) = exec_rrss(&tree, o.stdin.as_bytes(), lim);
     let got = out.stdout_str();
+    if other.is_some() && matches!(caught, Caught::Done(())) {
+        let like = |r: &Run| got == r.out && out.ok() == r.result.is_ok();
+        let digest = fnv_str(&got) ^ fnv_str(&format!("{:?}", out.err));
+        if like(&m) {
+            return Diff::Agree { model: m, src, digest, tree_differs, reading: Some("dynamic") };
+        }
+        let l = other.unwrap();
+        if like(&l) {
+            return Diff::Agree { model: l, src, digest, tree_differs, reading: Some("lexical") };
+        }
+        return Diff::Fail(format!(
+            "behaviour matches neither reading of the scope rules\n--- names resolved along the chain of active calls: {:?} {:?}\n--- names resolved in the function's own scopes and the globals: {:?} {:?}\n--- rrss: {:?} {:?}\n--- program:\n{}{}",
+            m.out, m.result, l.out, l.result, got, out.err, src, note
+        ));
+    }
     match caught {
         Caught::Panic(p) => {
             return Diff::Fail(format!("rrss panicked: {}\n--- stdout so far: {:?}\n--- program:\n{}{}", p, got, src, note));
@@ -96,16 +118,20 @@ pub fn differential(prog: &Program, o: &DiffOpts) -> Diff {
         ));
     }
     let digest = fnv_str(&got) ^ fnv_str(&format!("{:?}", out.err));
-    Diff::Agree { model: m, src, digest, tree_differs }
+    Diff::Agree { model: m, src, digest, tree_differs, reading: None }
 }
 
 pub fn to_outcome(d: Diff) -> Result<(Run, String, Outcome), Outcome> {
     match d {
         Diff::Discard(w) => Err(Outcome::discard(w)),
         Diff::Fail(m) => Err(Outcome::fail(m)),
-        Diff::Agree { model, src, digest, tree_differs } => {
+        Diff::Agree { model, src, digest, tree_differs, reading } => {
             let mut o = Outcome::pass();
             o.digest = digest;
+            if let Some(r) = reading {
+                // the two readings of the scope rules differ on this program; rrss behaves like this one
+                o.labels.push(format!("scope_readings_differ:rrss_follows_{}", r));
+            }
             if tree_differs {
                 // must stay 0 on the unchanged tree (C02 reports the mismatch itself)
                 o.labels.push("parsed_tree_differs_but_behaviour_agrees".into());
